@@ -35,11 +35,12 @@ type gCfg struct {
 	parkAllocate                        bool
 	sched                               bool // goroutines also park at the entry of every loop submission
 	netRev                              bool // the host gatherer walks its networks in reverse order (tcp before udp)
+	relayCloseErr                       bool // closing a relayed connection reports an error
 }
 
 func (g gCfg) String() string {
 	return fmt.Sprintf("host=%v srflx=%v mapped=%v relay=%v udpMux=%v muxSrflx=%v tcpMux=%v relayTCP=%v ips=%d filter=%v stunTO=%v urls2=%v",
-		g.host, g.srflxStun, g.srflxMapped, g.relay, g.udpMux, g.udpMuxSrflx, g.tcpMux, g.relayTCP, g.nIPs, g.ifaceFilter, g.stunTimeout, g.twoStunURLs) + map[bool]string{true: " sched", false: ""}[g.sched] + map[bool]string{true: " netrev", false: ""}[g.netRev]
+		g.host, g.srflxStun, g.srflxMapped, g.relay, g.udpMux, g.udpMuxSrflx, g.tcpMux, g.relayTCP, g.nIPs, g.ifaceFilter, g.stunTimeout, g.twoStunURLs) + map[bool]string{true: " sched", false: ""}[g.sched] + map[bool]string{true: " netrev", false: ""}[g.netRev] + map[bool]string{true: " relayCloseErr", false: ""}[g.relayCloseErr]
 }
 
 func drawGCfg(t *tape.Tape) gCfg {
@@ -62,6 +63,7 @@ func drawGCfg(t *tape.Tape) gCfg {
 	}
 	g.sched = t.Bias(1, 3, "sched")
 	g.netRev = g.tcpMux && t.Bias(1, 2, "netrev")
+	g.relayCloseErr = g.relay && t.Bias(1, 3, "relaycloseerr")
 	return g
 }
 
@@ -85,7 +87,9 @@ type gRig struct {
 	ownSocks  map[int]bool // harness-owned sockets (mux sockets): not "acquired while gathering"
 	steps     int
 	trace     bool
-	closed    bool
+	closed    bool // leftAtClose: callers of the agent's goroutines still parked in the simulator (listen, allocate, loop
+	// submission) at the moment Close returned
+	leftAtClose int
 }
 
 func newGRig(c *core.Ctx, t *tape.Tape, cfg gCfg, extra ...ice.AgentOption) (*gRig, error) {
@@ -100,6 +104,9 @@ func newGRig(c *core.Ctx, t *tape.Tape, cfg gCfg, extra ...ice.AgentOption) (*gR
 	g.stun2 = rig.NewStunServer(srv, "203.0.113.6:3478")
 	relayHost := g.W.SimpleHost("R", "203.0.113.9")
 	g.turn = &rig.TurnStub{W: g.W, RelayHost: relayHost, RelayIP: "203.0.113.9", ParkAllocate: cfg.parkAllocate}
+	if cfg.relayCloseErr {
+		g.turn.RelayCloseErr = errInjected
+	}
 
 	var types []ice.CandidateType
 	if cfg.host {
@@ -245,6 +252,7 @@ func (g *gRig) closeAgent() (returned bool) {
 		synctest.Wait()
 		select {
 		case <-done:
+			g.leftAtClose = len(g.W.Parked()) + g.nSched()
 			for p := g.W.Parked(); len(p) > 0 || g.nSched() > 0; p = g.W.Parked() {
 				if len(p) > 0 {
 					g.W.Release(p[0])
